@@ -80,8 +80,9 @@ int me() { return vs_active() ? vs_self() : 0; }
 // Task-level scheduling points only matter when there is a thief that could take a task; with a
 // single modelled TBB thread per client they would only multiply client interleavings at points
 // that are free of inter-client synchronisation.
+bool g_always_task_points = false;  // harness request: task boundaries are scheduling points even without a thief
 void tpoint(const char* tag) {
-  if (g_workers > 1) vs_point(tag);
+  if (g_workers > 1 || g_always_task_points) vs_point(tag);
 }
 
 bool matches(task* t, std::intptr_t iso) { return iso == 0 || t_iso(t) == iso; }
@@ -307,6 +308,7 @@ void tbbrt_config(int workers, int concurrency) {
   tbb::detail::r1::g_workers = workers < 1 ? 1 : workers;
   tbb::detail::r1::g_concurrency = concurrency < 1 ? 1 : concurrency;
 }
+void tbbrt_task_points(int always) { tbb::detail::r1::g_always_task_points = always != 0; }
 // forget everything about the previous execution (in-process exploration)
 void tbbrt_reset(void) {
   using namespace tbb::detail::r1;
